@@ -245,6 +245,8 @@ static int poll_rr;
 /* skew: a thread that reaches the designated observation point is parked for a random number of scheduling
  * decisions with probability 1/3, so that threads drift apart around that point (e.g. GVT phase changes) */
 static unsigned skew_point = 0xffffffffU, skew_len = 0;
+static int skew_tag = -1; /* -1: every thread; otherwise only the thread with this trace tag is subject to the skew */
+void vs_set_skew_tag(int tag) { skew_tag = tag; }
 static unsigned parked[VS_MAX];
 /* keep one logical thread (1 = the first one created) off the processor for the first `len' decisions */
 static int park_thr = -1;
@@ -254,6 +256,18 @@ void vs_park(int logical, unsigned point, unsigned len)
 	park_thr = logical;
 	park_point = point;
 	park_len = len;
+}
+/* delay injection: the thread with trace tag `tag' is kept off the processor for `len' decisions at its n-th arrival at `point' */
+static int delay_tag = -1;
+static unsigned delay_point, delay_len;
+static unsigned long delay_nth, delay_seen;
+void vs_delay(int tag, unsigned point, unsigned long nth, unsigned len)
+{
+	delay_tag = tag;
+	delay_point = point;
+	delay_nth = nth;
+	delay_len = len;
+	delay_seen = 0;
 }
 void vs_set_skew(unsigned point, unsigned len)
 {
@@ -409,6 +423,14 @@ void vs_yield(unsigned point, unsigned long site)
 			return;
 		}
 	}
+	if(delay_tag >= 0 && tag_of[me] == delay_tag && point == delay_point && ++delay_seen == delay_nth) {
+		delay_tag = -1;
+		parked[me] = delay_len;
+		int nx = pick_next(me, 1);
+		if(nx >= 0 && nx != me)
+			hand_over(me, nx);
+		return;
+	}
 	if(me == park_thr && point == park_point) {
 		/* one-shot: the designated thread is kept off the processor from its first arrival at this point */
 		park_thr = -1;
@@ -418,7 +440,7 @@ void vs_yield(unsigned point, unsigned long site)
 			hand_over(me, nx);
 		return;
 	}
-	if(skew_len && point == skew_point && (vs_rand() % 3) == 0) {
+	if(skew_len && point == skew_point && (skew_tag < 0 || tag_of[me] == skew_tag) && (vs_rand() % 3) == 0) {
 		parked[me] = 1 + (unsigned)(vs_rand() % skew_len);
 		int nx = pick_next(me, 1);
 		if(nx >= 0 && nx != me)
